@@ -30,9 +30,12 @@ class DelayDriver(MachineDriver):
     OPS = [("add", "a", 100), ("add", "a", 200), ("add", "b", 100), ("add", "c", 100), ("add", "c", 200),
            ("add_if", "a", 200), ("reset", "a", 100), ("remove", "a"), ("remove", "b"), ("clear",),
            ("run_now", "a"), ("run_now", "b"), ("madd", "m", 100), ("madd", "m", 200),
-           ("mode_stop",), ("mode_start",)]
+           ("mode_stop",), ("mode_start",), ("hold_stopping",), ("release",)]
 
     def setup(self):
+        self.held = None            # queue of mode_m1_stopping held by a waiting handler
+        self.hold_next = False
+        self.m.events.add_handler("mode_m1_stopping", self._on_stopping)
         self.dm = self.m.delay
         self.mode = self.m.modes["m1"]
         self.mode.start()
@@ -41,6 +44,12 @@ class DelayDriver(MachineDriver):
         self.ref = {}               # name -> (deadline, tag, owner)
         self.seen = 0
         self.pending_rm_a = False
+
+    def _on_stopping(self, queue=None, **kwargs):
+        if self.hold_next and queue is not None:
+            self.hold_next = False
+            queue.wait()
+            self.held = queue
 
     # callbacks with different flavours
     def _cb(self, name):
@@ -90,18 +99,27 @@ class DelayDriver(MachineDriver):
                 self._apply_callback_effects(name, now)
         elif kind == "madd":
             _, name, ms = op
-            if self.mode.active:
+            # (what a delay added while the mode is being stopped does before the stop completes is not judged)
+            if self.mode.active and not self.mode.stopping:
                 tag = 1 if ms == 100 else 2
                 self.mode.delay.add(ms=ms, callback=self._cb(name), name=name, tag=tag)
                 self.ref[name] = (now + ms / 1000.0, tag, "mode")
         elif kind == "mode_stop":
-            if self.mode.active:
+            if self.mode.active and not self.mode.stopping:
                 self.mode.stop()
                 self.stat("mode_stop_with_delay", 1 if "m" in self.ref else 0)
                 self.ref.pop("m", None)
         elif kind == "mode_start":
             if not self.mode.active:
                 self.mode.start()
+        elif kind == "hold_stopping":
+            # the next stop of the mode is held in its mode_m1_stopping queue (as a slide or show would)
+            self.hold_next = True
+        elif kind == "release":
+            if self.held is not None:
+                q, self.held = self.held, None
+                q.clear()
+                self.stat("stops_released")
 
     def _apply_callback_effects(self, name, now):
         if name == "b":
@@ -170,7 +188,7 @@ class DelayDriver(MachineDriver):
     def fingerprint(self):
         now = self.loop.time()
         return (tuple(sorted((n, r6(v[0] - now), v[1]) for n, v in self.ref.items())), self.mode.active,
-                self.rel_timers())
+                self.rel_timers(), self.hold_next, self.held is not None, getattr(self.mode, "stopping", None))
 
     def observe(self):
         return {"callbacks": [(r6(t - self.t0), n, k) for t, n, k in self.cblog]}
